@@ -565,7 +565,11 @@ func mainHistories(seed int64) [][]item {
 		}
 		// prices for CalculatePriceToTick: range ends, one ulp outside, far outside, negative
 		maxSpot, minSpotV2 := raw(types.MaxSpotPriceBigDec), raw(types.MinSpotPriceV2)
+		// (prices carry 36 decimals, the conversion works on 18 of them: also the last 36-decimal price that truncates
+		// to the bound, and the first that does not)
 		for _, p := range []*big.Int{maxSpot, new(big.Int).Add(maxSpot, big.NewInt(1)), new(big.Int).Mul(maxSpot, big.NewInt(10)),
+			new(big.Int).Add(maxSpot, new(big.Int).Mul(big.NewInt(5), pow10(17))), new(big.Int).Add(maxSpot, new(big.Int).Sub(pow10(18), big.NewInt(1))),
+			new(big.Int).Add(maxSpot, pow10(18)), new(big.Int).Sub(maxSpot, big.NewInt(1)), new(big.Int).Sub(maxSpot, pow10(18)),
 			minSpotV2, new(big.Int).Sub(minSpotV2, big.NewInt(1)), big.NewInt(1), big.NewInt(0), big.NewInt(-1), new(big.Int).Neg(pow10(36)), pow10(36), pow10(36 - 12)} {
 			its = append(its, item{kind: "p2t", x: p})
 		}
